@@ -140,3 +140,18 @@ Proof. discriminate. Qed.
 Definition h_example : list event :=
   [(10, Invoke Run 0 (FailAt 1)); (12, Invoke Run 0 AllOk); (14, Invoke Run 0 AllOk);
    (16, Write "src/a.txt" "A1"); (18, Invoke Run 0 (KilledAt 1)); (20, Invoke Run 0 AllOk)]%N.
+
+(* 7.4 residual, LIVE: method timestamp with generates.  A successful run leaves out.txt newer than
+   the sources; a forced attempt fails (the marker is dropped in the repaired variants, kept in the
+   old ones); the next run is "up to date" either way. *)
+Definition h_74r : list event :=
+  [(10, Invoke Run 0 AllOk); (12, Invoke Force 0 (FailAt 0)); (14, Invoke Run 0 AllOk)]%N.
+Lemma ts_generates_residual_refuted : forall v,
+  v_ts_exact v = false -> w04 v [w_gen Timestamp] h_74r = false.
+Proof. intro v; by_variant v. Qed.
+
+(* timestamp set-blindness as a C04 violation, LIVE: a source is removed, the task is skipped at a
+   fingerprint at which it never ran *)
+Lemma ts_removal_refuted_c04 : forall v,
+  v_ts_exact v = false -> w04 v [w_task Timestamp] h_rm = false.
+Proof. intro v; by_variant v. Qed.
